@@ -14,6 +14,7 @@ import MillerModel.Gen.Grammar
 import MillerModel.Lemmas.C14Interp
 import MillerModel.Lemmas.C14Typed
 import MillerModel.Lemmas.C14Output
+import MillerModel.Lemmas.C14Context
 namespace Miller
 namespace Props.C14
 open DSL
@@ -462,12 +463,69 @@ theorem path_index_walks_maps_only (kvs : Fields) (k : Bytes) (x : Val) (j : DV)
   · simp [indexPathMap, keyOf, h]
   · simp [indexPathMap]
 
+/-- NR, FNR, FILENAME, THE MODE AND "IS THERE A CURRENT RECORD" ARE READ-ONLY FOR PROGRAMS: over every
+statement and every expression, on every outcome, they are afterwards what they were before (fourth
+induction over the whole interpreter). -/
+theorem context_is_read_only_over_every_statement (p : Prog) (fuel : Nat) (st : Stmt) (s : St) :
+    ctxOf (runM (exec p fuel st) s).2 = ctxOf s :=
+  (allKeepCtx p fuel).exec st s
+
+theorem context_is_read_only_over_every_expression (p : Prog) (fuel : Nat) (e : Expr) (s : St) :
+    ctxOf (runM (eval p fuel e) s).2 = ctxOf s :=
+  (allKeepCtx p fuel).eval e s
+
+/-- NR AND FNR COUNT RECORDS: whatever the program does with a record, and however that ends, the counters
+afterwards are exactly one more than before and FILENAME is unchanged. -/
+theorem nr_and_fnr_advance_by_one_per_record (p : Prog) (cfg : Run) (fuel : Nat) (r : Fields) (s : St) :
+    (runM (runRecord p cfg fuel r) s).2.nr = s.nr + 1 ∧ (runM (runRecord p cfg fuel r) s).2.fnr = s.fnr + 1 ∧
+    (runM (runRecord p cfg fuel r) s).2.filename = s.filename :=
+  runRecord_counts p cfg fuel r s
+
+/-- ... so after a stream that was processed without error NR is the number of records: what the end
+blocks see. (runAll starts the loop at NR = 0.) -/
+theorem nr_after_the_stream_is_the_record_count (p : Prog) (cfg : Run) (fuel : Nat) (recs : List Fields) (s : St)
+    (h : (runM (recLoop p cfg fuel recs) { s with nr := 0, fnr := 0 }).1 = .ok ()) :
+    (runM (recLoop p cfg fuel recs) { s with nr := 0, fnr := 0 }).2.nr = recs.length := by
+  have := recLoop_counts p cfg fuel recs { s with nr := 0, fnr := 0 } h
+  simpa using this
+
+/-- `filter X` AND `filter -x X` PARTITION THE INPUT: run on the same record from the same state, the two do
+exactly the same work (same final state up to the output, same printed lines before the record) and,
+when the run succeeds, the record is written by exactly one of them. (Also for `put` with and without an
+inverted `filter` statement; `-q` writes no record at all.) -/
+theorem filter_and_filter_x_partition (p : Prog) (cfg : Run) (fuel : Nat) (r : Fields) (s : St)
+    (hq : cfg.quiet = false)
+    (hok : (runM (runRecord p { cfg with invert := false } fuel r) s).1 = .ok ()) :
+    (runM (runRecord p { cfg with invert := true } fuel r) s).1 = .ok () ∧
+    ∃ base : St,
+      ((runM (runRecord p { cfg with invert := false } fuel r) s).2 = { base with out := base.out ++ [.record base.cur] } ∧
+       (runM (runRecord p { cfg with invert := true } fuel r) s).2 = base) ∨
+      ((runM (runRecord p { cfg with invert := false } fuel r) s).2 = base ∧
+       (runM (runRecord p { cfg with invert := true } fuel r) s).2 = { base with out := base.out ++ [.record base.cur] }) := by
+  unfold runRecord at *
+  simp only [runM_bind, runM_modify, runM_get, hq, emitRec] at *
+  generalize runM (runBlock p fuel p.main) _ = rb at *
+  obtain ⟨res, s1⟩ := rb
+  cases res with
+  | error e => simp at hok
+  | ok u =>
+    refine ⟨?_, s1, ?_⟩ <;>
+    · cases hf : s1.filt with
+      | s v =>
+        cases v <;> simp_all [runM_bind, runM_pure, runM_modify, runM_failM] <;>
+          (first | done | (rename_i b; cases b <;> simp_all [runM_modify, runM_pure]) | (cases hc : cfg.isFilter <;> simp_all [runM_bind, runM_pure, runM_modify, runM_failM]))
+      | _ => cases hc : cfg.isFilter <;> simp_all [runM_bind, runM_pure, runM_modify, runM_failM]
+
 /-- Non-vacuity: the premises above are met by ordinary states. -/
 example : ∃ st', Stack.define ([] :: [[{ name := "x", ty := .int, val := vint 1 }]]) "x" .str (vstr [97]) = .ok st' ∧
     Stack.lookup st' "x" = some { name := "x", ty := .str, val := vstr [97] } :=
   ⟨_, rfl, rfl⟩
 example : emitIndexed [[97]] [] [115] [([112], vint 1), ([113], vint 2)]
     = [[([97], vstr [112]), ([115], vint 1)], [([97], vstr [113]), ([115], vint 2)]] := rfl
+
+/-- Non-vacuity of `filter_and_filter_x_partition`: the one-statement filter program `true` succeeds on a record. -/
+example : (runM (runRecord { main := [.bare (.lit (.bool true))] } { isFilter := true } 5 [([97], vint 1)]) { isFilter := true }).1 = .ok () := by
+  rfl
 
 end Props.C14
 end Miller
